@@ -114,6 +114,12 @@ func genStep(w *bufio.Writer, r *rand.Rand, k int, overM bool, bigEvery int, fla
 						}
 						p := pick(r, []int64{1, 1, 2, 3, 8})
 						pc := r.Int63n(m)
+						switch r.Intn(6) {
+						case 0:
+							pc = m - 1
+						case 1:
+							pc = m - 2
+						}
 						c := []int64{1, m, rl, wl, p, 1, flags, 1, 1, m, pc, 0}
 						for a := int64(0); a < m; a++ {
 							if a == pc {
